@@ -92,7 +92,11 @@ void read_adjacency_data(const boost::filesystem::path &filename,
         // Second two characters are the edges ids
         // TO DO: might use tuple later on
         size_t current_edge_in, current_edge_out;
-        is >> current_edge_in >> current_edge_out;
+        if (!(is >> current_edge_in >> current_edge_out))
+        {
+            // blank-only line (or no two vertex ids): nothing to read
+            continue;
+        }
 
         // Read the rest of the data
         weight_t value;
